@@ -43,7 +43,7 @@ PROPS = {
     'C04': P('C04', [('link', 15000, 120000), ('inline', 5000, 40000), ('htmldecode', 8000, 64000), ('pipeline', 1500, 12000)], ('C04', 30000, 240000),
              "oracle: scheme spellings (case, named/decimal/hex references, escapes, embedded controls, percent escapes) x 8 syntactic positions; every Link/Image/Autolink url and every rendered href/src is fed to a WHATWG-style scheme extractor",
              ["browser behaviour is modelled by WHATWG URL pre-processing (strip C0/space at the ends, drop TAB/LF/CR) + ASCII-case-insensitive scheme"], extra_modules=('GenC17', ('LinksDoc', r'doc_urls_safe|doc_href|doc_link_render|parseDoc_every_kind|parseBlocks_refs_good|reference_step|tokenize_refs'), ('Inline', r'pipeline|fromPipeline'), 'HtmlDecode', 'HrefConverse', 'HrefNodup')),
-    'C05': P('C05', [('inlineops', 10000, 80000), ('block', 6000, 48000), ('inline', 5000, 40000), ('pipeline', 1500, 12000), ('pipetabs', 1500, 12000)], ('C05', 30000, 240000),
+    'C05': P('C05', [('inlineops', 10000, 80000), ('block', 6000, 48000), ('inline', 5000, 40000), ('pipeline', 1500, 12000), ('pipetabs', 1500, 12000), ('pipelineh', 1200, 9600)], ('C05', 30000, 240000),
              "oracle: RangesOk on every parsed tree (root covers input, boundaries, nesting, sibling order, text/markup fidelity) for all generators x configurations with the paragraph rule; non-trivial = tree with more than 3 nodes",
              ["whole-tree induction is _partial (Layer 3); covered by the oracle"], extra_modules=(('PipelineH', r'range'), 'C05Tabs', 'C05Rest', 'C05Inline', 'C05Doc', ('Inline', r'ordered|translate'),)),
     'C06': P('C06', [('block', 6000, 48000), ('lines', 900, 7200)], ('C06', 15000, 120000),
@@ -70,7 +70,7 @@ PROPS = {
     'C13': P('C13', [('refs', 12500, 100000), ('pipeline', 1500, 12000), ('block', 3000, 24000)], ('C13', 20000, 160000),
              "oracle: k definitions (case/whitespace/case-fold variants, in quotes and items, before/after the use) x 4 use forms; expected target = first definition of the same base label",
              ["U+0131 dotless i is additionally identified with i/I by lower-then-upper normalisation (documented, not tested as a non-match)"], extra_modules=('C13Doc', 'C13Trace', ('LinksDoc', r'reference_no_node|first_wins|parseBlocks_refs$|tokenize_refs|reference_step|doc_reference|spliceNode_spec'),)),
-    'C14': P('C14', [('inlineops', 10000, 80000), ('block', 6000, 48000), ('inline', 5000, 40000), ('pipeline', 1500, 12000), ('pipetabs', 1000, 8000)], ('C14', 25000, 200000),
+    'C14': P('C14', [('inlineops', 10000, 80000), ('block', 6000, 48000), ('inline', 5000, 40000), ('pipeline', 1500, 12000), ('pipetabs', 1000, 8000), ('pipelineh', 1200, 9600)], ('C14', 25000, 200000),
              "oracle: WF on every parsed tree for all generators x configurations containing the paragraph rule",
              [], extra_modules=(('PipelineH', r'wf|places|leaves|shapes'), ('C14Doc', r'doc_inline_leaves|doc_text_nf_nojoin|doc_tree_wf_full|not_wf_without_paraLast|tokenize_tight|parseBlocks_noAdjInl|shape_induction|parseInline_shapes'), ('Pipeline', r'doc_tree_wf|fragmentsJoin_nf|fragmentsJoin_mem|spliceList_kinds|spliceList_wf|spliceList_every|joinNode_wf_aux|joinNode_every|sourceposNode_wf|parseBlocks_wf|tokenize_wf|runChain_para|parseDoc_stages'), ('Block', r'list_shape'), ('Inline', r'no_placeholder|allNF'),)),
     'C15': P('C15', [('smap', 450, 3600), ('pipeline', 1500, 12000)], ('C15', 1500, 12000),
